@@ -389,7 +389,7 @@ add({"name": "hexdump_bytes", "file": "dfs/hexdump.cc",
                (r"DFS::byte", "byte", 1),
                ("OSTREAM_CHAIN", "os", ">=6"),
                (r"static_cast<unsigned char>\(", "(unsigned char)(", ">=0"),
-               (r"\bisgraph\(", "verif_isgraph(", 1),
+               (r"\bisgraph\(", "verif_isgraph(", ">=0"),
                (r"(while \(len\))", r"\1 HEXDUMP_ROW_CONTRACT", 1),
                (r"(for \(size_t i = 0; i < stride; \+\+i\))(\s*\{\s*if \(i < len\)\s*\{ OUT_CHR)", r"\1 HEXDUMP_HEX_CONTRACT\2", 1),
                (r"(for \(size_t i = 0; i < stride; \+\+i\))(\s*\{\s*char ch)", r"\1 HEXDUMP_ASCII_CONTRACT\2", 1)],
